@@ -26,6 +26,7 @@ BOUNDS = {
     "quick": "m,n<=4, all 2^(p-1)-type compositions for every rank 0..p, values {4,2,1,1/2}, factors id/monomial/Householder, R=1..p",
     "thorough": "m,n<=6, values {4,2,1,1/2,1/4}, 3 fill rows",
 }
+THOROUGH_STREAMS = 8
 WALL_BUDGET = {"quick": 300, "thorough": 2400}
 ASSUMPTIONS = ["expected singular values are the prescribed ones (inputs are built as U diag(s) V^H from exactly/numerically unitary factors)"]
 
